@@ -155,7 +155,7 @@ func runC18ProdPair(c *harness.Case, proxyOn bool, peerTLS string) {
 			c.Violatef("C18 follower-read-misses-acknowledged-write path=production-pair request=brain.Get", wit(), "the leader acknowledged %q at revision %d, then the follower answered Get with %v (header %d)", key, wrev, g.Kv, g.Header.GetRevision())
 			return
 		}
-		er, eerr := B.etcdGRPC.Range(ctx, &etcdserverpb.RangeRequest{Key: []byte(full), RangeEnd: []byte(fullEnd)})
+		er, eerr := B.etcdGRPC.Range(ctx, &etcdserverpb.RangeRequest{Key: []byte(full), RangeEnd: []byte(fullEnd), Serializable: wrev%2 == 1})
 		if eerr == nil {
 			found := false
 			for _, kv := range er.Kvs {
